@@ -1,5 +1,6 @@
 import GnpyModel
 import GnpyProofs.Lemmas.Redesign
+import GnpyProofs.Lemmas.ChainPadLine
 import GnpyProofs.Props.C08
 import GnpyProofs.Props.C09
 /- Property theorems for C17 — designing is repeatable: export, reload and redesign changes nothing; the simulation
@@ -110,6 +111,52 @@ theorem padding_fixpoint (padding : ℝ) (r : List (Elem ℝ)) (u : String) (p :
     padRun padding (padRun padding r) = padRun padding r :=
   padRun_idempotent padding r u p v q t hr hl hnr
 
+/-- padding any run again changes nothing — whatever its shape (Fused first or last, Raman, single fibre, amplifier) -/
+theorem padRun_idempotent_all (padding : ℝ) (r : List (Elem ℝ)) :
+    padRun padding (padRun padding r) = padRun padding r := by
+  cases hl : r.getLast? with
+  | none =>
+    have : padRun padding r = r := by unfold padRun; rw [hl]
+    rw [this, this]
+  | some x =>
+    cases x with
+    | fused u l =>
+      have : padRun padding r = r := by unfold padRun; rw [hl]
+      rw [this, this]
+    | edfa u p =>
+      have : padRun padding r = r := by unfold padRun; rw [hl]
+      rw [this, this]
+    | fiber u p =>
+      by_cases hr : p.raman = true
+      · have : padRun padding r = r := by unfold padRun; rw [hl]; simp [hr]
+        rw [this, this]
+      · have hnr : p.raman = false := by simpa using hr
+        cases r with
+        | nil => simp at hl
+        | cons a t =>
+          cases t with
+          | nil =>
+            simp at hl; subst hl
+            exact padRun_idempotent padding _ u p u p [] rfl (by simp) hnr
+          | cons b t' =>
+            cases a with
+            | fiber v q => exact padRun_idempotent padding _ u p v q (b :: t') rfl hl hnr
+            | fused v l => exact padRun_idem_nonfibre_first padding _ b t' u p rfl hl hnr
+            | edfa v q => exact padRun_idem_nonfibre_first padding _ b t' u p rfl hl hnr
+
+/-- **`add_fiber_padding` is idempotent on a whole line**: the padded line splits into the padded runs
+(`runs_addPadding`), and padding each of them again changes nothing — so the redesign of an exported network
+pads nothing and caches the same `design_span_loss` values. -/
+theorem addPadding_idempotent (padding : ℝ) (l : List (Elem ℝ)) :
+    addPadding padding (addPadding padding l) = addPadding padding l := by
+  have h := runs_addPadding padding l
+  unfold addPadding at h ⊢
+  rw [h, List.map_map]
+  congr 1
+  apply List.map_congr_left
+  intro r _
+  exact padRun_idempotent_all padding r
+
 /-! ### the amplifier recurrence re-derives the exported operating point -/
 
 /-- one amplifier: fed with its own exported settings (selected type_variety, gain, delta_p, out_voa, in_voa) and the
@@ -214,11 +261,11 @@ redesign of the exported network with con_out = 2: `add_connector_loss` is not i
 theorem redesign_eol_counterexample :
     ∃ (l : List (Elem ℝ)), addConn 0 0 1 (addConn 0 0 1 l) ≠ addConn 0 0 1 l ∧
       (addConn 0 0 1 l).map Elem.loss = [17] ∧ (addConn 0 0 1 (addConn 0 0 1 l)).map Elem.loss = [18] := by
-  refine ⟨[.fiber "f" { length := 80, lossCoef := 0.2, conIn := none, conOut := none, attIn := 0, lumped := 0,
+  refine ⟨[.fiber "f" { length := 80, lossCoef := 0.2, conIn := none, conOut := none, attIn := 0, lumps := [],
                         raman := false, ramanGain := none, dsl := none }], ?_, ?_, ?_⟩
   · simp [addConn]
-  · simp [addConn, Elem.loss, FiberP.loss]; norm_num
-  · simp [addConn, Elem.loss, FiberP.loss]; norm_num
+  · simp [addConn, Elem.loss, FiberP.loss, FiberP.lumped, sumLeft_eq_sum]; norm_num
+  · simp [addConn, Elem.loss, FiberP.loss, FiberP.lumped, sumLeft_eq_sum]; norm_num
 
 /-! ### SimParams -/
 
